@@ -1488,3 +1488,40 @@ mod tests {
         Ok(())
     }
 }
+
+#[cfg(gmsol_verif)]
+impl MarketGraph {
+    /// Verification hook: build a graph from explicit edges.
+    ///
+    /// Each entry is `(market_token, long_token, short_token, ln_rate long->short, ln_rate short->long)`.
+    pub fn verif_from_edges(
+        max_steps: usize,
+        edges: &[(Pubkey, Pubkey, Pubkey, Option<Decimal>, Option<Decimal>)],
+    ) -> Self {
+        let mut g = Self::with_config(MarketGraphConfig {
+            max_steps,
+            ..Default::default()
+        });
+        for (market_token, long, short, l2s, s2l) in edges {
+            let l = g.insert_collateral_token(*long, *market_token);
+            let s = g.insert_collateral_token(*short, *market_token);
+            g.graph.add_edge(
+                l,
+                s,
+                Edge::new(
+                    *market_token,
+                    l2s.map(|ln_exchange_rate| SwapEstimation { ln_exchange_rate }),
+                ),
+            );
+            g.graph.add_edge(
+                s,
+                l,
+                Edge::new(
+                    *market_token,
+                    s2l.map(|ln_exchange_rate| SwapEstimation { ln_exchange_rate }),
+                ),
+            );
+        }
+        g
+    }
+}
